@@ -118,6 +118,28 @@ class ABuf:
                 me.last_find = (s, me.fn, me.n, (m0, m1))
                 return mk_int(s)
             return BoundBuiltin('bytearray.find', find, self)
+        if name in ('rfind', 'rindex') or (name in ('find', 'index') and False):
+            def rfind(ex, me, sub, *a):
+                sub = ex.concretize(sub)
+                if isinstance(sub, int):
+                    b0 = sub
+                else:
+                    sb = SBytes.of(sub)
+                    if not sb.concrete() or len(sb) != 1:
+                        raise Unsupported('rfind() other than of one byte')
+                    b0 = sb.items[0]
+                if a:
+                    raise Unsupported('rfind() with bounds')
+                _N[0] += 1
+                s = z3.Int(f'rfind!{_N[0]}')
+                i = z3.Int('i!r')
+                ex.assume(z3.Or(z3.And(s == -1, z3.ForAll([i], z3.Implies(z3.And(i >= 0, i < me.n), me.fn(i) != b0))),
+                                z3.And(s >= 0, s < me.n, me.fn(s) == b0, z3.ForAll([i], z3.Implies(z3.And(i > s, i < me.n), me.fn(i) != b0)))))
+                me.last_rfind = (s, me.fn, me.n, b0)
+                if name == 'rindex' and ex.truth(mk_bool(s == -1)):
+                    raise PyRaise(make_exc('ValueError', 'subsection not found'))
+                return mk_int(s)
+            return BoundBuiltin(f'bytearray.{name}', rfind, self)
         if name == 'hex':
             from .sstr import SStr, Atom
             return BoundBuiltin('bytes.hex', lambda ex, me, *a: SStr([Atom(f'hex-of-{me.tag}')]), self)
